@@ -1268,6 +1268,17 @@ class Evaluator:
         if isinstance(l, (Sym, Text)) or isinstance(r, (Sym, Text)):
             self._label(("label-ordered", l, r, node))
             return TOP
+        if isinstance(l, (tuple, list)) and isinstance(r, (tuple, list)) and type(l) == type(r):
+            # sequences are ordered lexicographically: the first pair of unequal elements decides, equal ones are skipped
+            # (labels are equal iff identical; ordering two different labels looks inside them - an event, and undecided)
+            for a, b in zip(l, r):
+                eq = self.compare(ast.Eq(), a, b, node)
+                if eq is TOP:
+                    return TOP
+                if not eq:
+                    strict = ast.Lt() if isinstance(op, (ast.Lt, ast.LtE)) else ast.Gt()
+                    return self.compare(strict, a, b, node)
+            return {ast.Lt: len(l) < len(r), ast.LtE: len(l) <= len(r), ast.Gt: len(l) > len(r), ast.GtE: len(l) >= len(r)}[type(op)]
         if isinstance(l, (set, frozenset, dict, list, tuple)) or isinstance(r, (set, frozenset, dict, list, tuple)):
             raise Unmodelled(f"ordering comparison of {type(l).__name__} and {type(r).__name__}", node)
         return TOP
